@@ -1008,3 +1008,161 @@ func typedDecodersThroughFromIPLD(x *Ctx) {
 	}
 	x.C.Obl("C07.R6", "typed-decoders-through-FromIPLD", "token/read.go", fmt.Sprintf("each of the %d calls from package token into the typed packages is FromIPLD(node)", n), bad == "" && n >= 2, dedupLines(bad))
 }
+
+// unreadableValuesRefused (C07.R5): what the decoders cannot read back the constructors do not accept.
+//   - the schema types the values of args / meta as Any without nullable: bindnode refuses a top-level null. Every
+//     path of (*Args).Add and (*Meta).Add that stores a node into Values knows its kind not to be null.
+//   - the codecs refuse an undefined CID. Every link literal.Any / anyAssemble builds is built on a path that knows
+//     the CID to be Defined(), and invocation.validate looks at the cause and at every proof.
+func unreadableValuesRefused(x *Ctx) {
+	kn, _ := x.kindConst("Kind_Null")
+	for _, name := range []string{"(*pkg/args.Args).Add", "(*pkg/meta.Meta).Add"} {
+		f := x.fn("C07.R5", name)
+		if f == nil {
+			continue
+		}
+		n, bad := 0, ""
+		for _, p := range x.paths("C07.R5", f) {
+			p.InstrsIn(func(in ssa.Instruction, c *paths.Ctx) {
+				mu, ok := in.(*ssa.MapUpdate)
+				if !ok {
+					return
+				}
+				if mt := c.Term(mu.Map); mt == nil || !strings.HasSuffix(mt.String(), ".Values") {
+					return
+				}
+				n++
+				v := c.Term(mu.Value).String()
+				known := false
+				for _, fc := range p.Facts {
+					s := fc.Atom.String()
+					if !fc.Pol && fc.Atom.Op == "eq" && strings.Contains(s, fmt.Sprintf("const(%d)", kn)) && strings.Contains(s, "Node.Kind]("+v+")") {
+						known = true
+					}
+				}
+				if !known {
+					bad += fmt.Sprintf("%s: a value is stored on a path that does not know it to be other than null (no decoder reads a top-level null back)\n", x.P.Pos(in.Pos()))
+				}
+			})
+		}
+		x.C.Obl("C07.R5", "null-refused:"+name, x.pos(f), "a top-level null is refused: the schema's Any is not nullable", bad == "" && n > 0, dedupLines(bad))
+	}
+	// links
+	n, bad := 0, ""
+	for _, name := range []string{"pkg/policy/literal.Any", "pkg/policy/literal.anyAssemble"} {
+		f := x.fn("C07.R5", name)
+		if f == nil {
+			continue
+		}
+		for _, p := range x.paths("C07.R5", f) {
+			for _, c := range p.Calls() {
+				ct := p.Term(c)
+				if ct == nil || ct.Op != "call" {
+					continue
+				}
+				if !(strings.HasSuffix(ct.Name, "literal.LinkCid") || strings.HasSuffix(ct.Name, "qp.Link") || strings.HasSuffix(ct.Name, "basicnode.NewLink")) {
+					continue
+				}
+				n++
+				known := false
+				for _, fc := range p.Facts {
+					if fc.Pol && strings.Contains(fc.Atom.String(), "(github.com/ipfs/go-cid.Cid).Defined]") {
+						known = true
+					}
+				}
+				if !known {
+					bad += fmt.Sprintf("%s: a link is built on a path that does not know the CID to be defined (the codecs refuse to encode cid.Undef)\n", x.P.Pos(c.Pos()))
+				}
+			}
+		}
+	}
+	x.C.Obl("C07.R5", "undefined-link-refused:literal.Any", "pkg/policy/literal/literal.go", "every link built from a caller's CID is built where the CID is known to be defined", bad == "" && n >= 2, dedupLines(bad))
+	if f := x.fn("C07.R5", "(*token/invocation.Token).validate"); f != nil {
+		okC, okP := false, false
+		// validate itself and the helpers its code was moved into, with their function literals
+		scope := map[*ssa.Function]bool{f: true}
+		for g := range x.P.ReachFrom(f) {
+			if x.P.IsNewHelper(g) {
+				scope[g] = true
+			}
+		}
+		var blocks []*ssa.BasicBlock
+		for g := range scope {
+			blocks = append(blocks, g.Blocks...)
+			for _, af := range g.AnonFuncs {
+				blocks = append(blocks, af.Blocks...)
+			}
+		}
+		for _, b := range blocks {
+			for _, in := range b.Instrs {
+				c, ok := in.(ssa.CallInstruction)
+				if !ok {
+					continue
+				}
+				h := c.Common().StaticCallee()
+				if h == nil || h.Name() != "Defined" || h.Pkg == nil || h.Pkg.Pkg.Path() != "github.com/ipfs/go-cid" || len(c.Common().Args) == 0 {
+					continue
+				}
+				a := c.Common().Args[0]
+				s := a.String()
+				if _, isParam := a.(*ssa.Parameter); isParam && in.Parent().Parent() != nil && scope[in.Parent().Parent()] {
+					// a predicate literal handed, together with t.proof, to a function that applies it to every element
+					for _, b2 := range in.Parent().Parent().Blocks {
+						for _, in2 := range b2.Instrs {
+							c2, ok := in2.(ssa.CallInstruction)
+							if !ok {
+								continue
+							}
+							hasProof, hasLit := false, false
+							for _, a2 := range c2.Common().Args {
+								if u, ok := a2.(*ssa.UnOp); ok {
+									if fa, ok := u.X.(*ssa.FieldAddr); ok && fieldNameOf(fa) == "proof" {
+										hasProof = true
+									}
+								}
+								if mc, ok := a2.(*ssa.MakeClosure); ok && mc.Fn == ssa.Value(in.Parent()) {
+									hasLit = true
+								}
+								if fn, ok := a2.(*ssa.Function); ok && fn == in.Parent() {
+									hasLit = true
+								}
+							}
+							if hasProof && hasLit {
+								okP = true
+							}
+						}
+					}
+				}
+				if u, ok := a.(*ssa.UnOp); ok {
+					// *t.cause / the element of t.proof
+					if u2, ok := u.X.(*ssa.UnOp); ok {
+						if fa, ok := u2.X.(*ssa.FieldAddr); ok && fieldNameOf(fa) == "cause" {
+							okC = true
+						}
+					}
+					if ia, ok := u.X.(*ssa.IndexAddr); ok {
+						if u3, ok := ia.X.(*ssa.UnOp); ok {
+							if fa, ok := u3.X.(*ssa.FieldAddr); ok && fieldNameOf(fa) == "proof" {
+								okP = true
+							}
+						}
+					}
+				}
+				_ = s
+			}
+		}
+		x.C.Obl("C07.R5", "undefined-link-refused:validate", x.pos(f), "validate looks at Defined() of the cause and of every proof", okC && okP, fmt.Sprintf("cause examined: %v, proofs examined: %v", okC, okP))
+	}
+}
+
+func fieldNameOf(fa *ssa.FieldAddr) string {
+	pt, ok := fa.X.Type().Underlying().(*types.Pointer)
+	if !ok {
+		return ""
+	}
+	st, ok := pt.Elem().Underlying().(*types.Struct)
+	if !ok || fa.Field >= st.NumFields() {
+		return ""
+	}
+	return st.Field(fa.Field).Name()
+}
